@@ -81,6 +81,10 @@ CLAIMED = {
    "Argument pools of empties (zero value of Geometry and of each concrete type, typed empties in 4 coordinate types, Multi* and collections of 1..3 empties of mixed types, nested empty collections) are fed to every exported method of the 8 geometry types, Envelope and Sequence (found by reflection; every argument tuple from small pools for int, float, coordinates type, bool, XY, envelope, transform and geometry parameters) and to a table of 23 free functions over all ordered pairs with at least one empty operand: no panic outside an explicit allow-list of documented ones, neutral answers (IsEmpty, zero measures, empty centroid/hull/envelope, undefined distance, Relate closed forms from the exact oracle, Union/Difference/SymmetricDifference = UnaryUnion of the other operand), encodings re-decodable, and the zero Geometry compared call by call with GeometryCollection{}.AsGeometry(). Transparency: 20 non-empty geometries of every type x an empty member of 10 kinds inserted at every position (and same-typed Multi* variants) x 5-8 other operands: measures, envelope, hull, validity, DE-9IM both ways, 10 predicates both ways, distance and the point set of 7 set operations (against the exact arrangement) must not change.",
    "Variadic option parameters are exercised with no options here (each option has its own property). Pointer-receiver decoders (Scan, UnmarshalJSON) are C08's subject.",
    "bounded-exhaustive enumeration of callees x argument tuples on the real code, differential (with / without empty member, zero value vs empty collection) and against neutral-answer tables", "4/C20"),
+ "C10": ("model_checking",
+   "Three exhaustive sub-checks over one op table (32 unary ops x 27 operands covering every degeneracy class, 17 binary ops x all ordered pairs, 4 search ops x 6 bulk-loaded trees). (1) Purity: operands, intermediate results of every depth-2 chain, collections built from results, and geometries sharing one backing array through NewSequence / Sequence.Slice are re-observed (WKB + accessor walk) after every call; every call is made twice and must return identical output. (2) Determinism under every map iteration order: a source-to-source pass (go/ast + go/types, applied with go build -overlay, /repo untouched) turns every range over a map in geom (22 sites) into a choice point and every map insertion (43 sites) into an insertion-order note; a deviation-bounded DFS explorer (default order, then every rotation / reversal / adjacent transposition at every choice point: bound 1 quick, bound 2 thorough, plus 4 global policies) re-runs the overlay-backed operations and requires the output (WKB / matrix / error) to equal the default run's; replaying the default schedule twice and every replayed prefix must meet identical choice points (uncaptured nondeterminism is a hard error). (3) Schedules: a static pass re-establishes on the current tree that geom, rtree and carto contain no go statement, channel operation, sync / atomic import or package-variable write outside init, so goroutines have no synchronisation edges and all interleavings are equivalent to the sequential runs; the same op bodies then run free under the race detector with 2, 4 and 16 goroutines on shared operands and trees.",
+   "A controlled thread scheduler would have zero scheduling points here (no synchronisation in the code); race-freedom therefore rests on the static pass + purity enumeration + one free-running -race execution per width (trusted base: Go race detector). Another process differs only in hash seed, i.e. map order, which (2) covers. The explorer menu is rotations / reversal / adjacent transpositions, not all n! orders.",
+   "stateless exploration of environment choices (map iteration order) on the real code with a deviation-bounded DFS, plus exhaustive purity enumeration and a static no-synchronisation argument for schedules", "4/C10"),
 }
 
 PENDING = {}
